@@ -82,8 +82,10 @@ func genCert(r *mrand.Rand) ([]byte, certCase, error) {
 		alg = ecAlgs[r.Intn(len(ecAlgs))]
 	}
 	serial := new(big.Int).SetBytes(gen.Bytes(r, 1+r.Intn(19)))
-	if serial.Sign() == 0 {
-		serial.SetInt64(1)
+	if r.Intn(10) == 0 {
+		// small and boundary serial numbers, zero among them (RFC 5280 wants positive ones; the reference parser
+		// reads a zero all the same, and so do the tools that issued such certificates)
+		serial.SetInt64([]int64{0, 0, 1, 127, 128, 255, 256, 32767, 32768}[r.Intn(9)])
 	}
 	t := &x509.Certificate{
 		SerialNumber:       serial,
